@@ -105,6 +105,12 @@ def process(jr, R, solver, ex, results, name, sig, replay_fn, timeout, start_ter
             continue
         n_ret += 1
         back, l1, l2 = r.value
+        if goals and cfg.get("_start_shape") and tuple(back.a.shape) != tuple(cfg["_start_shape"]):
+            # the round trip must give back the start tensor, not merely its elements in memory order
+            so = C.Outcome(pname + "/roundtrip-shape", "goal", "sat", 0.0, rung="syntactic", detail="start %s, back %s" % (tuple(cfg["_start_shape"]), tuple(back.a.shape)))
+            so.model = {}
+            handle(jr, R, so, "roundtrip", p, replay_fn, sig)
+            continue
         if obligations:
             cuts = C.Cuts(R, solver, cond)
             for ob in p.obligations:
@@ -234,6 +240,8 @@ def job_module(cfg):
     jr["prune_queries"] = ex.stats["prune_queries"]
     sig = {"case": case.name, "order": order}
     start_terms = [s.t for s in h["x"].a.reshape(-1)] if "x" in h else []
+    if "x" in h:
+        cfg = dict(cfg, _start_shape=tuple(h["x"].a.shape))
 
     def replay_fn(relation, leaves):
         return replay_module(case, order, relation, leaves)
@@ -262,6 +270,10 @@ def replay_module(case, order, relation, leaves):
                 res["first_stage_exception"] = "%s: %s" % (type(e).__name__, e)
                 return res
             back, l2 = second(mid)
+        if tuple(back.shape) != tuple(x.shape):
+            res.update({"start_shape": list(x.shape), "back_shape": list(back.shape)})
+            res["reproduced"] = relation == "roundtrip"
+            return res
         err = float((back - x).abs().max())
         lsum = float((l1 + l2).abs().max()) if l1.shape == l2.shape else float("nan")
         res.update({"start": x.reshape(-1).tolist(), "mid": mid.reshape(-1).tolist(), "back": back.reshape(-1).tolist(), "max_err": err, "lad_sum": lsum})
